@@ -1,6 +1,7 @@
 """C16 writer pipeline under all interleavings: systematic schedule exploration of the real threads."""
 import os
 import random
+import threading
 import time
 
 import numpy as np
@@ -58,6 +59,13 @@ def cases(tier, seed):
             for k in (0, 1, 2):
                 out.append({'id': '%s:ps3:cap%d:write-fault@%d' % (route, cap, k), 'route': route, 'ps': 3, 'cap': cap, 'blocks': False, 'mode': 'random',
                             'budget': 25 if q else 300, 'sseed': rng.randrange(1 << 30), 'cost': 2, 'fail_at': k})
+    # ... and when the producer fails part-way (its source cannot be read any more) while plane sets are still queued: the call raises, and
+    # the output file must not change after it has (the workers that are still alive must not go on writing into it)
+    for route in ('numpy', 'segy'):
+        for cap in (1, 2, 16):
+            for k in (1, 2):
+                out.append({'id': '%s:ps3:cap%d:producer-fault@%d' % (route, cap, k), 'route': route, 'ps': 3, 'cap': cap, 'blocks': False, 'mode': 'random',
+                            'budget': 25 if q else 300, 'sseed': rng.randrange(1 << 30), 'cost': 2, 'fail_put': k})
     return out
 
 
@@ -93,7 +101,7 @@ def setup(case, sc):
     return (lambda out, mem_=mem: conv.convert_segy(s['path'], out, rate, bs, reduce_iops=route == 'segy-iops', detection=det, mem_limit=mem_)), s, rate, bs
 
 
-def run_one(job, out, chooser, cap, fail_at=None):
+def run_one(job, out, chooser, cap, fail_at=None, fail_put=None):
     """One controlled execution.  Returns dict(deadlock, trace, bytes, py/raw write logs, writes_after_return)."""
     import seismic_zfp.conversion as C
     import seismic_zfp.conversion_utils as CU
@@ -111,6 +119,17 @@ def run_one(job, out, chooser, cap, fail_at=None):
             raise OSError(28, 'No space left on device (injected at write %d)' % fail_at)
         S.note_write(data)
     rec.before_write = before_write
+    if fail_put is not None:
+        nput = [0]
+        main_tid = threading.get_ident()
+
+        def put_hook(qidx):
+            if qidx == 0 and threading.get_ident() == main_tid:
+                nput[0] += 1
+                if nput[0] - 1 == fail_put:
+                    S.injected_producer_faults = getattr(S, 'injected_producer_faults', 0) + 1
+                    raise OSError(5, 'Input/output error (injected: source unreadable at plane set %d)' % fail_put)
+        S.put_hook = put_hook
     oldq, oldt, oldz = CU.Queue, CU.Thread, CU.zfpy
 
     class _Zfpy:
@@ -139,7 +158,13 @@ def run_one(job, out, chooser, cap, fail_at=None):
             pass
         except Exception as e:  # noqa
             err = e
-        if not S.deadlock and (err is None or fail_at is not None):
+        if fail_put is not None and not S.deadlock:
+            # what the output file holds at the moment the call comes back
+            try:
+                S.file_at_return = open(out, 'rb').read()
+            except OSError:
+                S.file_at_return = None
+        if not S.deadlock and (err is None or fail_at is not None or fail_put is not None):
             S.after_return()          # (also when the call came back by raising after an injected write failure: what do the workers still write?)
         else:
             S.abort()
@@ -150,7 +175,6 @@ def run_one(job, out, chooser, cap, fail_at=None):
         del C.open
     # let unwound daemon threads exit
     t0 = time.time()
-    import threading
     while any(t.name.startswith(('compressor', 'writer')) and t.is_alive() for t in threading.enumerate()) and time.time() - t0 < 2:
         time.sleep(0.0005)
     return S, rec, err
@@ -190,7 +214,6 @@ def run_case(case, ctx):
     ref_path = sc.file('ref.sgz')
     # uninstrumented run with the real, free-running threads on a machine with plenty of memory (the library's default capacity): the file
     # must not depend on the capacity.  It runs beside a generous watchdog - a pipeline that hangs for real must not hang the check
-    import threading
     box = {}
 
     def _ref():
@@ -220,6 +243,7 @@ def run_case(case, ctx):
     schedules = set()
     n_exec = 0
     faults = 0
+    pfaults = 0
     own_cap = False
     virt = [0, 0, 0]
     maxlen = 0
@@ -264,7 +288,7 @@ def run_case(case, ctx):
             return en[names.index(c)]
         if os.path.exists(out):
             os.remove(out)
-        S, rec, err = run_one(job, out, chooser, case['cap'], case.get('fail_at'))
+        S, rec, err = run_one(job, out, chooser, case['cap'], case.get('fail_at'), case.get('fail_put'))
         if not S.queues or not S.trace or (not rec.py and err is None and not S.deadlock):
             # the pipeline did not go through the instrumented Queue / Thread / open (e.g. after a refactoring): nothing was controlled
             return {'inconclusive': 'instrumentation not reached: %d queues, %d scheduled operations, %d recorded writes' % (len(S.queues), len(S.trace), len(rec.py)),
@@ -278,6 +302,26 @@ def run_case(case, ctx):
         maxlen = max(maxlen, len(S.trace))
         schedules.add(hash(tuple(S.trace)))
         sched_txt = ' '.join('%s.%s' % (a[:4], b2) for a, b2 in S.trace[-40:])
+        if case.get('fail_put') is not None:
+            pfaults += getattr(S, 'injected_producer_faults', 0)
+            if not getattr(S, 'injected_producer_faults', 0):
+                pass
+            elif S.deadlock:
+                bad.append({'sig': 'pipeline:producer-failure:call-never-returns', 'detail': 'blocked: %s; schedule tail: %s' % (getattr(S, 'blocked', None), sched_txt)})
+            elif err is None:
+                bad.append({'sig': 'pipeline:producer-failure:not-reported', 'detail': 'the producer raised OSError at plane set %d but run() returned normally; schedule tail: %s' % (case['fail_put'], sched_txt)})
+            else:
+                try:
+                    now = open(out, 'rb').read()
+                except OSError:
+                    now = None
+                if now != getattr(S, 'file_at_return', None):
+                    bad.append({'sig': 'pipeline:producer-failure:output-changed-after-the-call-returned',
+                                'detail': 'output was %s bytes when run() raised, %s bytes after the workers ran on; schedule tail: %s'
+                                          % (None if S.file_at_return is None else len(S.file_at_return), None if now is None else len(now), sched_txt)})
+            if len(bad) > 3:
+                break
+            continue
         if case.get('fail_at') is not None:
             faults += getattr(S, 'injected_write_faults', 0)
             if not getattr(S, 'injected_write_faults', 0):
@@ -328,11 +372,13 @@ def run_case(case, ctx):
         strata.append('dfs-complete')
     if case.get('fail_at') is not None:
         strata.append('write-fault')
+    if case.get('fail_put') is not None:
+        strata.append('producer-fault')
     if own_cap:
         # the converter derived this capacity itself (from the memory it was told the machine has) and passed it down as queue_size
         strata.append('library-derived-cap:%d' % case['cap'])
     counters = {'executions': n_exec, 'abstract_states': len(visited), 'transitions': len(transitions), 'distinct_schedules': len(schedules),
-                'schedule_len_max': maxlen, 'virtual_timeouts_fired': virt[0], 'timed_condition_waits': virt[1], 'polling_observations': virt[2], 'dfs_complete': 1 if complete else 0, 'dfs_incomplete': 1 if case['mode'] == 'dfs' and not complete else 0, 'write_faults_injected': faults}
+                'schedule_len_max': maxlen, 'virtual_timeouts_fired': virt[0], 'timed_condition_waits': virt[1], 'polling_observations': virt[2], 'dfs_complete': 1 if complete else 0, 'dfs_incomplete': 1 if case['mode'] == 'dfs' and not complete else 0, 'write_faults_injected': faults, 'producer_faults_injected': pfaults}
     return {'violations': bad, 'counters': counters, 'strata': strata, 'key': case['id'], 'nontrivial': n_exec > 0,
             'summary': {'id': case['id'], 'executions': n_exec, 'states': len(visited), 'transitions': len(transitions), 'schedules': len(schedules),
                         'complete': complete, 'wall': round(time.time() - t_start, 1)}}
@@ -345,7 +391,7 @@ def sample_view(case, res):
 def finalize(tier, cases, results, counters, strata):
     reasons = []
     need = ['route:numpy', 'route:segy', 'route:segy-thorough', 'route:2d', 'ps:1', 'ps:2', 'ps:3', 'cap:1', 'cap:2', 'cap:16', 'mode:dfs', 'mode:random', 'mode:pct',
-            'dfs-complete', 'layout:blocks', 'library-derived-cap:1', 'library-derived-cap:2', 'library-derived-cap:16', 'write-fault']
+            'dfs-complete', 'layout:blocks', 'library-derived-cap:1', 'library-derived-cap:2', 'library-derived-cap:16', 'write-fault', 'producer-fault']
     for s in need:
         if s not in strata:
             reasons.append('required stratum not hit: ' + s)
